@@ -461,3 +461,382 @@ def falsify_C02(ctx):
     return {"cases": cases, "nontrivial": len(nontrivial),
             "rule": "random task sets x analysed task x the four EDF preemption models x arbitrary relative deadlines (also equal ones: ties everywhere); dense admissible releases (synchronous, phased, the latest-deadline task started one tick earlier), WCET and random execution times, random legal placement of non-preemptive regions, random tie-breaks among equal absolute deadlines; simulated response times vs the real bound; non-trivial = distinct (system, scenario)",
             "counterexamples": cex, "samples": samples, "distribution": dist}
+
+
+# ---------------------------------------------------------------------------
+# C17: base / hardened pairs on the real code
+
+import copy
+
+
+def res_le(a, b):
+    """order: ok x <= ok y iff x <= y; anything <= div; never div <= ok"""
+    if a.startswith("ok") and b.startswith("ok"):
+        return int(a.split()[1]) <= int(b.split()[1])
+    if b.startswith("div"):
+        return a.startswith("ok") or a.startswith("div")
+    return False
+
+
+def harden_arr(a, rng):
+    """a harder arrival model (more arrivals in every window), or None"""
+    k = a[0]
+    if k == "spo":
+        if rng.random() < 0.5:
+            return ("spo", a[1], a[2] + rng.randint(1, 6)), "jitter"
+        if a[1] > 1:
+            return ("spo", a[1] - rng.randint(1, min(3, a[1] - 1)), a[2]), "period"
+        return ("spo", a[1], a[2] + 1), "jitter"
+    if k == "per":
+        if a[1] > 1 and rng.random() < 0.6:
+            return ("per", a[1] - rng.randint(1, min(3, a[1] - 1))), "period"
+        return ("wj", rng.randint(1, 6), a), "jitter"
+    if k in ("cur", "xcur", "prop", "agg", "sli", "sum", "wj", "box"):
+        return ("wj", rng.randint(1, 6), a), "jitter"
+    return None, None
+
+
+def harden_system(sd, rng):
+    """one single-parameter hardening of a structured system (see gen_system)"""
+    h = copy.deepcopy(sd)
+    kind = sd["kind"]
+    choices = ["limit"]
+    if kind != "fifo":
+        choices += ["add", "tua_arr"]
+        if sd["others"]:
+            choices += ["other_cost", "other_arr"]
+        if kind not in ("fp_p", "edf_p", "edf_np", "edf_lp", "edf_fl"):
+            choices.append("B")
+        if kind in ("fp_np", "fp_lp", "edf_np", "edf_lp"):
+            choices.append("C")
+        if kind in ("edf_lp", "edf_fl") and sd["others"]:
+            choices.append("seg")
+    else:
+        choices += ["fifo_add", "fifo_arr"]
+    what = rng.choice(choices)
+    if what == "limit":
+        h["limit"] = sd["limit"] + rng.randint(1, 200)
+    elif what == "B":
+        h["B"] = sd["B"] + rng.randint(1, 4)
+    elif what == "C":
+        h["C"] = sd["C"] + rng.randint(1, 3)
+        h["tua"] = ("rbf", h["arr"], ("sc", h["C"]))
+        if kind in ("fp_lp", "edf_lp"):
+            pass  # own last segment unchanged
+    elif what == "add":
+        a = gen.gen_task_arr(rng, allow_prefix=False)
+        c = rng.randint(1, 5)
+        h["others"].append({"rb": ("rbf", a, ("sc", c)), "arr": a, "C": c, "D": sd["D"] + rng.randint(0, 20), "seg": rng.randint(1, c)})
+    elif what == "other_cost":
+        o = rng.choice(h["others"])
+        if o["rb"][0] == "rbf" and o["rb"][2][0] == "sc":
+            newc = o["rb"][2][1] + rng.randint(1, 3)
+            o["rb"] = ("rbf", o["rb"][1], ("sc", newc))
+            if "C" in o:
+                o["C"] = newc
+                o["seg"] = newc
+        else:
+            return None, None
+    elif what == "other_arr":
+        o = rng.choice(h["others"])
+        if o["rb"][0] != "rbf":
+            return None, None
+        na, w = harden_arr(o["rb"][1], rng)
+        if na is None:
+            return None, None
+        o["rb"] = ("rbf", na, o["rb"][2])
+        if "arr" in o:
+            o["arr"] = na
+        what = "other_" + w
+    elif what == "tua_arr":
+        if "arr" in sd:
+            na, w = harden_arr(sd["arr"], rng)
+            if na is None:
+                return None, None
+            h["arr"] = na
+            h["tua"] = ("rbf", na, ("sc", sd["C"]))
+        else:
+            t = sd["tua"]
+            if t[0] != "rbf":
+                return None, None
+            na, w = harden_arr(t[1], rng)
+            if na is None:
+                return None, None
+            h["tua"] = ("rbf", na, t[2])
+        what = "tua_" + w
+    elif what == "seg":
+        o = rng.choice(h["others"])
+        o["seg"] = o["seg"] + rng.randint(1, 4)
+    elif what == "fifo_add":
+        a = gen.gen_task_arr(rng, allow_prefix=False)
+        h["tasks"] = (sd["tasks"][0], sd["tasks"][1] + [("rbf", a, ("sc", rng.randint(1, 5)))])
+    elif what == "fifo_arr":
+        ts = list(sd["tasks"][1])
+        i = rng.randrange(len(ts))
+        if ts[i][0] != "rbf":
+            return None, None
+        na, w = harden_arr(ts[i][1], rng)
+        if na is None:
+            return None, None
+        ts[i] = ("rbf", na, ts[i][2])
+        h["tasks"] = (sd["tasks"][0], ts)
+        what = "fifo_" + w
+    return h, what
+
+
+def weaken_supply(s, rng):
+    """a supply that provides no more service in any window"""
+    inner = s[1] if s[0] == "dflt" else s
+    if inner[0] == "ded":
+        P = rng.randint(2, 9)
+        new = ("psup", rng.randint(1, P), P)
+    elif inner[0] == "psup":
+        Q, P = inner[1], inner[2]
+        if Q > 1:
+            new = ("psup", Q - 1, P)
+        else:
+            return None
+    else:
+        Q, D, P = inner[1], inner[2], inner[3]
+        if D < P and rng.random() < 0.5:
+            new = ("csup", Q, D + 1, P)
+        elif Q > 1:
+            new = ("csup", Q - 1, D, P)
+        else:
+            return None
+    return ("dflt", new) if s[0] == "dflt" else new
+
+
+def falsify_C17(ctx):
+    rng = random.Random(ctx["seed"] * 7919 + 17)
+    n = 1500 if ctx["tier"] == "quick" else 100000
+    cex, samples, nontrivial = [], [], set()
+    dist = {}
+    pairs = []
+    for i in range(n):
+        sd = gen_system(rng, small_limit=False)
+        h, what = harden_system(sd, rng)
+        if h is None:
+            continue
+        pairs.append((system_op(sd), system_op(h), what, sd["kind"]))
+    # ROS 2 analyses with scalar costs
+    from . import streams as st_mod
+    m = n // 2
+    for i in range(m):
+        s = st_mod.gen_ros_supply(rng)
+        k = wchoice(rng, [(2, "es"), (3, "tm"), (3, "pp"), (2, "rr"), (2, "bw")])
+        lim = gen.gen_limit(rng)
+        if k in ("es", "tm", "pp"):
+            own_a = gen.gen_task_arr(rng, allow_prefix=False)
+            own_c = rng.randint(1, 5)
+            interf = [(gen.gen_task_arr(rng, allow_prefix=False), rng.randint(1, 4)) for _ in range(rng.randint(0, 3))]
+            B = rng.randint(0, 4)
+
+            def render(s_, own_a_, own_c_, interf_, B_, lim_):
+                own = f"rbf {gen.arr_str(own_a_)} sc {own_c_}"
+                it = f"ragg {len(interf_)}" + "".join(f" rbf {gen.arr_str(a)} sc {c}" for a, c in interf_)
+                ss = gen.supply_str(s_)
+                if k == "es":
+                    return f"ros_es {ss} {own} {lim_}"
+                if k == "tm":
+                    return f"ros_tm {ss} {own} {it} {B_} {lim_}"
+                return f"ros_pp {ss} {own} {it} {lim_}"
+            base = render(s, own_a, own_c, interf, B, lim)
+            what = rng.choice(["supply", "own_cost", "own_arr", "limit"] + (["add", "B"] if k != "es" else []))
+            if what == "supply":
+                s2 = weaken_supply(s, rng)
+                if s2 is None:
+                    continue
+                hard = render(s2, own_a, own_c, interf, B, lim)
+            elif what == "own_cost":
+                hard = render(s, own_a, own_c + rng.randint(1, 3), interf, B, lim)
+            elif what == "own_arr":
+                na, w = harden_arr(own_a, rng)
+                if na is None:
+                    continue
+                hard = render(s, na, own_c, interf, B, lim)
+                what = "own_" + w
+            elif what == "limit":
+                hard = render(s, own_a, own_c, interf, B, lim + rng.randint(1, 200))
+            elif what == "add":
+                hard = render(s, own_a, own_c, interf + [(gen.gen_task_arr(rng, allow_prefix=False), rng.randint(1, 4))], B, lim)
+            else:
+                hard = render(s, own_a, own_c, interf, B + rng.randint(1, 3), lim)
+            pairs.append((base, hard, "ros_" + what, "ros_" + k))
+        else:
+            cbs, sub = st_mod.gen_workload(rng)
+            cbs = [(rtb, a, ("sc", rng.randint(1, 5)), kd) for rtb, a, c, kd in cbs]
+            base = f"{k} {gen.supply_str(s)} {st_mod.workload_str(cbs, sub)} {lim}"
+            what = rng.choice(["supply", "cost", "add", "limit", "arr"])
+            cb2 = list(cbs)
+            s2, lim2 = s, lim
+            if what == "supply":
+                s2 = weaken_supply(s, rng)
+                if s2 is None:
+                    continue
+            elif what == "cost":
+                j = rng.randrange(len(cb2))
+                cb2[j] = (cb2[j][0], cb2[j][1], ("sc", cb2[j][2][1] + rng.randint(1, 3)), cb2[j][3])
+            elif what == "arr":
+                j = rng.randrange(len(cb2))
+                na, w = harden_arr(cb2[j][1], rng)
+                if na is None:
+                    continue
+                cb2[j] = (cb2[j][0], na, cb2[j][2], cb2[j][3])
+                what = w
+            elif what == "add":
+                cb2.append((rng.randint(0, 20), gen.gen_task_arr(rng, allow_prefix=False), ("sc", rng.randint(1, 4)),
+                            wchoice(rng, [(2, "T"), (1, "E"), (2, "U"), (3, f"P {rng.randint(0, 5)}")])))
+            else:
+                lim2 = lim + rng.randint(1, 200)
+            hard = f"{k} {gen.supply_str(s2)} {st_mod.workload_str(cb2, sub)} {lim2}"
+            pairs.append((base, hard, f"{k}_" + what, k))
+    ops = [p[0] for p in pairs] + [p[1] for p in pairs]
+    res = real(ops)
+    half = len(pairs)
+    for (b, h, what, kind), rb, rh in zip(pairs, res[:half], res[half:]):
+        dist[what] = dist.get(what, 0) + 1
+        if rb == "panic" or rh == "panic" or rb == "hang" or rh == "hang":
+            continue
+        if rb.startswith("ok") and rb != "ok 0":
+            nontrivial.add(b + "|" + h)
+        if what.endswith("limit"):
+            ok = (rh == rb) if rb.startswith("ok") else True
+        else:
+            ok = res_le(rb, rh)
+        if not ok:
+            cex.append({"kind": "not_monotone", "hardening": what, "analysis": kind, "op": b, "impl": rb, "hardened_op": h, "hardened_impl": rh})
+        elif len(samples) < 5 and rb.startswith("ok") and rh.startswith("ok") and rb != rh:
+            samples.append({"hardening": what, "base": b, "base_result": rb, "hardened": h, "hardened_result": rh})
+    return {"cases": len(pairs), "nontrivial": len(nontrivial),
+            "rule": "random base systems for the nine dedicated-processor analyses and the ROS 2 analyses (scalar costs) x one single-parameter hardening (WCET, jitter, period, blocking, other task's segment, added task/callback, weaker supply, larger limit); real results compared in the order ok a <= ok b <= divergence (limit: Ok unchanged); the analysed task's OWN last non-preemptive segment is not a hardening and is not varied; non-trivial = distinct pair with a positive base bound",
+            "counterexamples": cex, "samples": samples, "distribution": dist}
+
+
+# ---------------------------------------------------------------------------
+# C19: pairs of real analyses on corresponding inputs
+
+def falsify_C19(ctx):
+    rng = random.Random(ctx["seed"] * 7919 + 19)
+    n = 2000 if ctx["tier"] == "quick" else 200000
+    pairs = []   # (what, opA, opB, extra)
+    from . import streams as st_mod
+    for i in range(n):
+        what = wchoice(rng, [(2, "fp_lp1_p"), (2, "fp_lpC_np"), (2, "fp_fl_lp1"), (2, "edf_lp1_p"), (2, "edf_lpC_np"),
+                             (2, "edf_fl_lp1"), (3, "npedf_fifo"), (3, "ros_supplies"), (2, "es_fifo")])
+        lim = gen.gen_limit(rng)
+        nO = wchoice(rng, [(1, 0), (3, 1), (3, 2), (2, 3)])
+        if what.startswith("fp"):
+            a = gen.gen_task_arr(rng)
+            C = rng.randint(1, 8)
+            B = rng.randint(0, 5)
+            others = [gen.gen_task_rb(rng) for _ in range(nO)]
+            ol = f"{len(others)}" + "".join(" " + gen.rb_str(o) for o in others)
+            sa = gen.arr_str(a)
+            if what == "fp_lp1_p":
+                pairs.append((what, f"fp_lp {sa} {C} 1 0 {ol} {lim}", f"fp_p rbf {sa} sc {C} {ol} {lim}", None))
+            elif what == "fp_lpC_np":
+                pairs.append((what, f"fp_lp {sa} {C} {C} {B} {ol} {lim}", f"fp_np {sa} {C} {B} {ol} {lim}", None))
+            else:
+                pairs.append((what, f"fp_fl rbf {sa} sc {C} {B} {ol} {lim}", f"fp_lp {sa} {C} 1 {B} {ol} {lim}", None))
+        elif what.startswith("edf"):
+            a = gen.gen_task_arr(rng)
+            sa = gen.arr_str(a)
+            C = rng.randint(1, 8)
+            D = rng.randint(0, 60)
+            os_ = [(gen.gen_task_arr(rng), rng.randint(1, 8), rng.randint(0, 60)) for _ in range(nO)]
+            if what == "edf_lp1_p":
+                A_ = f"edf_lp {sa} {C} {D} 1 {len(os_)}" + "".join(f" rbf {gen.arr_str(x)} sc {c} {d} 1" for x, c, d in os_) + f" {lim}"
+                B_ = f"edf_p rbf {sa} sc {C} {D} {len(os_)}" + "".join(f" rbf {gen.arr_str(x)} sc {c} {d}" for x, c, d in os_) + f" {lim}"
+            elif what == "edf_lpC_np":
+                A_ = f"edf_lp {sa} {C} {D} {C} {len(os_)}" + "".join(f" rbf {gen.arr_str(x)} sc {c} {d} {c}" for x, c, d in os_) + f" {lim}"
+                B_ = f"edf_np {sa} {C} {D} {len(os_)}" + "".join(f" {gen.arr_str(x)} {c} {d}" for x, c, d in os_) + f" {lim}"
+            else:
+                segs = [rng.randint(0, 6) for _ in os_]
+                A_ = f"edf_fl rbf {sa} sc {C} {D} {len(os_)}" + "".join(f" rbf {gen.arr_str(x)} sc {c} {d} {sg}" for (x, c, d), sg in zip(os_, segs)) + f" {lim}"
+                B_ = f"edf_lp {sa} {C} {D} 1 {len(os_)}" + "".join(f" rbf {gen.arr_str(x)} sc {c} {d} {sg}" for (x, c, d), sg in zip(os_, segs)) + f" {lim}"
+            pairs.append((what, A_, B_, None))
+        elif what == "npedf_fifo":
+            k = wchoice(rng, [(1, 1), (3, 2), (3, 3)])
+            ts = [(gen.gen_task_arr(rng, allow_prefix=False), rng.randint(1, 6)) for _ in range(k)]
+            D = rng.randint(0, 50)
+            fifo = f"fifo ragg {k}" + "".join(f" rbf {gen.arr_str(a)} sc {c}" for a, c in ts) + f" {lim}"
+            eds = []
+            for i2, (a, c) in enumerate(ts):
+                oth = [t for j, t in enumerate(ts) if j != i2]
+                eds.append(f"edf_np {gen.arr_str(a)} {c} {D} {len(oth)}" + "".join(f" {gen.arr_str(x)} {cc} {D}" for x, cc in oth) + f" {lim}")
+            pairs.append((what, fifo, eds, [gen.arr_str(a) for a, _ in ts]))
+        elif what == "ros_supplies":
+            P = rng.randint(1, 12)
+            op = rng.choice(st_mod.stream_ros_e19(rng, 1) + st_mod.stream_ros_rr(rng, 1) + st_mod.stream_ros_bw(rng, 1))
+            toks = op.split()
+            # replace the supply term (second token onwards) by the three equivalent supplies
+            rest = st_mod_strip_supply(toks)
+            if rest is None:
+                continue
+            head, tail = rest
+            pairs.append((what, f"{head} ded {tail}", [f"{head} psup {P} {P} {tail}", f"{head} csup {P} {P} {P} {tail}",
+                                                       f"{head} dflt psup {P} {P} {tail}"], None))
+        else:
+            r = gen.gen_rb_maybe_agg(rng, allow_prefix=False)
+            pairs.append((what, f"ros_es ded {gen.rb_str(r)} {lim}", f"fifo {gen.rb_str(r)} {lim}", gen.rb_str(r)))
+    ops = []
+    for p in pairs:
+        ops.append(p[1])
+        if isinstance(p[2], list):
+            ops += p[2]
+        else:
+            ops.append(p[2])
+    res = real(ops)
+    it = iter(res)
+    cex, samples, nontrivial = [], [], set()
+    dist = {}
+    for what, a, b, extra in pairs:
+        ra = next(it)
+        rbs = [next(it) for _ in b] if isinstance(b, list) else [next(it)]
+        dist[what] = dist.get(what, 0) + 1
+        if ra.startswith("ok") and ra != "ok 0":
+            nontrivial.add(a)
+        if what == "npedf_fifo":
+            if "panic" in [ra] + rbs:
+                continue
+            if ra.startswith("ok"):
+                vals = [int(x.split()[1]) if x.startswith("ok") else None for x in rbs]
+                # a task that never releases anything is analysed to Ok(0) (finding K5): skip those tasks
+                if None in vals or max(vals) != int(ra.split()[1]):
+                    silent = [real([f"na {s} 100000"])[0] == "0" for s in extra]
+                    cex.append({"kind": "max_npedf_ne_fifo", "op": a, "impl": ra, "edf_ops": b, "edf_impl": rbs,
+                                "some_task_never_releases": any(silent)})
+                elif len(samples) < 2 and ra != "ok 0":
+                    samples.append({"what": what, "fifo": a, "fifo_result": ra, "np_edf_results": rbs})
+        elif what == "ros_supplies":
+            for x, rx in zip(b, rbs):
+                if rx != ra:
+                    cex.append({"kind": "equivalent_supplies_differ", "op": a, "impl": ra, "other_op": x, "other_impl": rx})
+        elif what == "es_fifo":
+            rb_ = rbs[0]
+            if ra != rb_ and "panic" not in (ra, rb_):
+                # finding K3: the event-source analysis also examines offset A = L
+                cex.append({"kind": "event_source_ne_fifo", "op": a, "impl": ra, "fifo_op": b, "fifo_impl": rb_})
+            elif len(samples) < 4 and ra.startswith("ok") and ra != "ok 0":
+                samples.append({"what": what, "op": a, "impl": ra, "fifo": rb_})
+        else:
+            if ra != rbs[0]:
+                cex.append({"kind": "special_case_disagreement", "what": what, "op": a, "impl": ra, "other_op": b, "other_impl": rbs[0]})
+            elif len(samples) < 4 and ra.startswith("ok") and ra != "ok 0":
+                samples.append({"what": what, "op": a, "impl": ra, "other": b})
+    return {"cases": len(pairs), "nontrivial": len(nontrivial),
+            "rule": "pairs (or tuples) of REAL analyses on corresponding inputs: LP-FP(last=1,B=0) vs preemptive FP, LP-FP(last=C) vs NP-FP, floating vs LP(last=1), the three EDF analogues, max NP-EDF vs FIFO for equal deadlines, every ROS 2 analysis under dedicated / periodic(Q=P) / constrained(Q=D=P) / default-service-time wrappers, event source vs FIFO on a dedicated processor; non-trivial = distinct first op with a positive bound",
+            "counterexamples": cex, "samples": samples, "distribution": dist}
+
+
+def st_mod_strip_supply(toks):
+    """split an op 'name <supply> rest…' into ('name', 'rest…')"""
+    i = 1
+    while toks[i] == "dflt":
+        i += 1
+    k = toks[i]
+    n = {"ded": 1, "psup": 3, "csup": 4}.get(k)
+    if n is None:
+        return None
+    return toks[0], " ".join(toks[i + n:])
